@@ -1,4 +1,4 @@
-\* C09 obligation D, thorough: 24 further hash orders of the name universe
+\* C09 obligation D, thorough: 12 further hash orders of the name universe
 SPECIFICATION Spec
 CONSTANTS
   Apex <- MC_Apex
